@@ -151,6 +151,48 @@ def rule_skip(ctx, F, fn):
                  accept_desc="stepping over a node")
 
 
+def rule_condense(ctx, F):
+    """R8: reuse needs a single stack version (R2), so versions must collapse again after an ambiguity.
+    In ts_parser__condense_stack every pairwise comparison that keeps both versions (prefer-left,
+    prefer-right, none) tries to merge them; a comparison that merely reorders never skips the merge."""
+    fn = ctx.need_fn(F, "ts_parser__condense_stack", "R8")
+    if not fn:
+        return
+    sw = [b.id for b in fn.blocks.values() if fn.cond(b.id) is not None and callee_name(strip(fn.cond(b.id))) == "ts_parser__compare_versions" and b.term.get("switch")]
+    if not sw:
+        ctx.bad("R8", "condense_stack:compares-versions", "ts_parser__condense_stack no longer switches on ts_parser__compare_versions(...)")
+        return
+    keep = {"ErrorComparisonPreferLeft", "ErrorComparisonNone", "ErrorComparisonPreferRight"}
+    merges = {pt for pt, c in fn.calls() if callee_name(c) == "ts_stack_merge"}
+    compares = {pt for pt, c in fn.calls() if callee_name(c) == "ts_parser__compare_versions"}
+    ctx.floor("merge attempts in ts_parser__condense_stack", len(merges), 2)
+
+    class MergeTried(Monitor):
+        def elem(self, m, pt, e, s):
+            if pt in merges:
+                return None
+            if m is not None and pt in compares:
+                return Viol("after the comparison said `%s` the two versions are left side by side without a merge attempt" % m, pt)
+            return m
+
+        def edge(self, m, bid, edge, cond, truth, s):
+            if bid in sw and isinstance(edge.lab, dict):
+                return edge.lab.get("name") if edge.lab.get("name") in keep else None
+            return m
+
+        def exit(self, m, bid, s):
+            if m is not None:
+                return Viol("after the comparison said `%s` the function returns without a merge attempt" % m)
+            return None
+    srch = Search(fn, MergeTried())
+    v = srch.run(None)
+    if v is None:
+        ctx.ok("R8", "condense_stack:kept-pairs-are-merged", "every comparison that keeps both versions is followed by ts_stack_merge before the next pair is looked at (%d states)" % srch.states)
+    else:
+        ctx.bad("R8", "condense_stack:kept-pairs-are-merged", "ts_parser__condense_stack: %s (%s) — equivalent versions then run side by side to the end of the file and node reuse (single version only) stays off" % (
+            v.msg, fn.loc(v.pt) if v.pt else "exit"), {"path": srch.render_path(v.path)[-6:]})
+
+
 def rule_eq(ctx, F):
     """R5: the scanner-state equality the reuse gates use treats an absent token like an empty
     state (otherwise every candidate is refused until the next external token)."""
@@ -182,6 +224,7 @@ def run(ctx):
         ctx.analysed["c_functions_" + cfg] = len(F.fn_list)
         rules(ctx, F)
         rule_eq(ctx, F)
+        rule_condense(ctx, F)
         # an edited tree's included ranges feed the range difference that vetoes reuse (shared with C10.W2)
         import C10
         C10.rule_range_edit(ctx, F)
